@@ -153,6 +153,42 @@ def run(prog, rep, tier):
     if adds_total != len(ws):
         rep.violation(R193, PL + "|total-add-sites", "processing_loop: %d direct additions to the total printed bytes for %d direct writes" % (adds_total, len(ws)))
 
+    # ------------------------------------------------------------ R19.7 sibling agreement of the four message arms
+    R197 = rep.rule("R19.7", "the four message arms of the coordinator perform the same bookkeeping steps")
+    shapes = {}
+    for kind, pc in sorted(prints.items()):
+        region = set(regions[kind])
+        for n2, r2 in regions.items():
+            if n2 != kind:
+                region -= r2
+        names_ = []
+        for c in b.live_calls():
+            if c.bb not in region:
+                continue
+            d = c.d
+            n = d.split("::")[-1]
+            if d.startswith(SP) or d.endswith("printers::write_stdout") or (n in ("insert", "push", "remove") and ("HashSet" in d or "Vec::<" in d or "BTreeMap" in d)) or d.endswith("::is_ok") or d.endswith("::is_err"):
+                norm = n.replace(kind, "KIND")
+                recv = ""
+                if n in ("insert", "push", "remove"):
+                    st_ = c.callee.get("self") or ""
+                    recv = "@" + st_.split("<")[0].split("::")[-1] + "<" + (st_.split("<", 1)[1][:12] if "<" in st_ else "")
+                names_.append(norm + recv)
+        shapes[kind] = sorted(names_)
+        rep.examined(R197, "%s|%s" % (PL, kind), sample={"arm": kind, "steps": shapes[kind]})
+    base = None
+    for kind in ("evtx", "fixedstruct", "journalentry"):
+        if base is None:
+            base = shapes[kind]
+        elif shapes[kind] != base:
+            diff = sorted(set(shapes[kind]) ^ set(base)) or "different multiplicities"
+            rep.violation(R197, "%s|arms|%s" % (PL, kind), "processing_loop: the %s arm performs different bookkeeping steps than the evtx arm (%s); what is counted or remembered would depend on the kind of message" % (kind, diff))
+    # the text arm does everything the others do (plus the supplied newline)
+    from collections import Counter
+    miss = Counter(base) - Counter(shapes["sysline"])
+    if miss:
+        rep.violation(R197, "%s|arms|sysline" % PL, "processing_loop: the text arm lacks bookkeeping steps the other arms perform: %s" % sorted(miss))
+
     # ------------------------------------------------------------ R19.4
     roots = ["s4lib::printer::summary::print_summary"]
     reach = prog.reachable_fns(roots)
